@@ -131,6 +131,13 @@ fn op_keys(req: &Value) -> Value {
 		Ok(v) => v,
 		Err(e) => return json!({"err": e}),
 	};
+	if !b(req, "raw_cursor") {
+		// a start cursor the CLI can reach: inside the text, as normal mode clamps it
+		let lb = v.current_buffer();
+		lb.set_cursor_clamp(true);
+		let c = lb.cursor.get();
+		lb.cursor.set(c);
+	}
 	let keep_mode = b(req, "keep_mode");
 	let last_only = b(req, "last_only");
 	let mut steps = vec![];
